@@ -450,9 +450,23 @@ func c08GenQuery(g *Gen) string {
 		}
 		return "SELECT t.k AS x0, " + strings.Join(parts, ", ") + " FROM t.csv t" + where("t") + " GROUP BY t.k"
 	case 5, 6:
-		kind := Pick(g, []string{"LEFT JOIN", "RIGHT JOIN", "OUTER JOIN", "JOIN", "LEFT JOIN"})
-		return "SELECT " + sel("t", c08TabT, 1+g.Intn(2), 0) + ", " + sel("u", c08TabU, 1+g.Intn(2), 4) + " FROM t.csv t " + kind +
-			" u.csv u ON t.k = u.k"
+		kind := Pick(g, []string{"LEFT JOIN", "RIGHT JOIN", "OUTER JOIN", "JOIN", "OUTER JOIN"})
+		// the never-NULL columns of both sides too (t.k, u.k, u.g) and strict functions of them: what an outer join pads
+		// with NULL must be reported nullable, on either side, and functions of it must turn NULL
+		pad := ""
+		if g.Chance(2, 3) {
+			pad = ", t.k AS x8, u.k AS x9, u.g AS x10, t.k + 1 AS x11, u.k * 2 AS x12, u.g + 0.5 AS x13"
+		}
+		on := Pick(g, []string{"t.k = u.k", "t.k = u.k", "t.k = u.k + 1", "t.k + 1 = u.k", "t.k = u.e"})
+		q := "SELECT " + sel("t", c08TabT, 1+g.Intn(2), 0) + ", " + sel("u", c08TabU, 1+g.Intn(2), 4) + pad + " FROM t.csv t " + kind +
+			" u.csv u ON " + on
+		if g.Chance(1, 4) {
+			// a join over an outer join: the padded columns keep their nullable types through the upper join
+			kind2 := Pick(g, []string{"JOIN", "LEFT JOIN", "RIGHT JOIN", "OUTER JOIN"})
+			q = "SELECT q.x8 AS x0, q.x9 AS x1, q.x8 + q.x9 AS x2, w.k AS x3, w.k - 1 AS x4 FROM (SELECT t.k AS x8, u.k AS x9 FROM t.csv t " + kind +
+				" u.csv u ON " + on + ") q " + kind2 + " t.csv w ON w.k = COALESCE(q.x8, q.x9)"
+		}
+		return q
 	case 7:
 		return "SELECT t.k AS x0, (SELECT " + Pick(g, []string{"u.e", "u.f", "u.g", "u.e + 1"}) + " FROM u.csv u WHERE u.k = t.k) AS x1, " +
 			sel("t", c08TabT, 1, 2) + " FROM t.csv t"
